@@ -15,11 +15,11 @@ func init() {
 	core.Register(&core.Prop{
 		ID:    "C07",
 		Level: "exploration",
-		Rule: "PRNG templates of 1..30 lines in which EXACTLY ONE failing construct is planted at a known byte offset: syntax error in an object or in if/assign/for/case/when/cycle arguments, unknown tag, unknown filter, a filter's own error (harness filter returning a sentinel; divided_by: 0), conversion errors, stray end/clause tags, an unterminated block, strict-mode undefined variable, loop-modifier type error, missing include, and failures of application tags and blocks written against render.Context (a failing object inside a tag/block argument expanded with ExpandTagArg, EvaluateString errors, Errorf, WrapError, plain errors, RenderFile of a missing file, errors in the body of a custom block rendered once or twice); surrounded by arbitrary text, preceded by multi-line tags/objects, nested 0..6 deep through every block kind and clause (else/elsif/when bodies, later loop iterations, capture bodies); parsed with path in {none, t.liquid, d/t.liquid} x starting line in {0, 1, 1000} through ParseTemplateLocation+Render, ParseTemplate+Render, ParseAndRender and ParseAndRenderString. Oracle: non-nil SourceError, no output with it, Path() = parse path, LineNumber() = start line + newlines before the construct, non-empty message naming the unknown tag/filter, Cause() leading to the wrapped error. Non-trivial = the construct is not on the first line or is nested; distinct = distinct (template, location, entry point).",
+		Rule: "PRNG templates of 1..30 lines in which EXACTLY ONE failing construct is planted at a known byte offset: syntax error in an object or in if/assign/for/case/when/cycle arguments, unknown tag, unknown filter, a filter's own error (harness filter returning a sentinel; divided_by: 0), conversion errors, stray end/clause tags, an unterminated block, strict-mode undefined variable, loop-modifier type error, missing include, and failures of application tags and blocks written against render.Context (a failing object inside a tag/block argument expanded with ExpandTagArg, EvaluateString errors, Errorf, WrapError, plain errors, RenderFile of a missing file, errors in the body of a custom block rendered once or twice); surrounded by arbitrary text, preceded by multi-line tags/objects, nested 0..6 deep through every block kind and clause (else/elsif/when bodies, later loop iterations, capture bodies); parsed with path in {none, t.liquid, d/t.liquid} x starting line in {0, 1, 1000} through ParseTemplateLocation+Render, ParseTemplate+Render, ParseAndRender, ParseAndRenderString, and ParseTemplateAndCache+Render with clean and unclean paths (./t, d//t, d/../t). Oracle: non-nil SourceError, no output with it, Path() = parse path, LineNumber() = start line + newlines before the construct, non-empty message naming the unknown tag/filter, Cause() leading to the wrapped error. Non-trivial = the construct is not on the first line or is nested; distinct = distinct (template, location, entry point).",
 		Exhaustive: func(string) bool { return false },
 		Assumptions: []string{
 			"the failing construct of a clause condition (elsif/when) is the clause tag itself",
-			"for an unterminated block the failing tag is the innermost unclosed block tag; it is planted at nesting depth 0 so that this is unambiguous",
+			"for an unterminated block the failing tag is the innermost unclosed block tag (also when several blocks are left open); the construct is planted at the top level",
 			"line numbers of errors raised inside included files are not asserted",
 		},
 		Run: runC07,
@@ -75,6 +75,9 @@ func c07Kinds() []c07kind {
 		{name: "unterminated-if", src: func(string) string { return "{% if true %}" }, topOnly: true},
 		{name: "unterminated-for", src: func(string) string { return "{% if true %}{% endif %}\n{% for q in one %}text" }, topOnly: true, offset: after("{% for")},
 		{name: "unterminated-capture", src: func(string) string { return "{% capture zz %}" }, topOnly: true},
+		{name: "unterminated-nested-2", src: func(string) string { return "{% if true %}\nx\n{% for q in one %}\ntext" }, topOnly: true, offset: after("{% for")},
+		{name: "unterminated-nested-3", src: func(string) string { return "{% for q in one %}{% if true %}a{% else %}\n\n{% capture zz %}\n{{ 1 }}" }, topOnly: true, offset: after("{% capture")},
+		{name: "unterminated-after-closed", src: func(string) string { return "{% if true %}{% for q in one %}{% endfor %}\n{% unless t %}{% endunless %}\n" }, topOnly: true},
 		{name: "strict-undefined", src: func(n string) string { return "{{ undefined_" + n + " }}" }, render: true, strict: true},
 		{name: "loop-limit-type", src: func(string) string { return "{% for q in one limit: \"x\" %}{% endfor %}" }, render: true},
 		{name: "loop-offset-type", src: func(string) string { return "{% for q in one offset: one %}{% endfor %}" }, render: true},
@@ -189,8 +192,11 @@ func runC07(c *core.Ctx) {
 		src := sb.String()
 		path := []string{"", "t.liquid", "d/t.liquid"}[r.Intn(3)]
 		start := []int{0, 1, 1000}[r.Intn(3)]
-		entry := r.Intn(4)
-		if entry != 0 {
+		entry := r.Intn(5)
+		if entry == 4 {
+			// ParseTemplateAndCache: the path is also a cache key, and is reported exactly as it was given
+			path = []string{"t.liquid", "./t.liquid", "d//t.liquid", "d/../t.liquid", "d/t.liquid", "/abs/x/../t.liquid", "d/./e/t.liquid"}[r.Intn(7)]
+		} else if entry != 0 {
 			path, start = "", 0
 		}
 		if k.name == "include-missing" || k.name == "include-not-string" {
@@ -212,6 +218,12 @@ func runC07(c *core.Ctx) {
 			res = core.Run(eng, src, b)
 		case 2:
 			res = core.ParseAndRender(eng, src, b)
+		case 4:
+			if t, pr := core.ParseCache(eng, src, path, start); pr.OK() {
+				res = core.Render(t, b)
+			} else {
+				res = pr
+			}
 		default:
 			res = core.ParseAndRenderString(eng, src, b)
 		}
@@ -222,7 +234,7 @@ func runC07(c *core.Ctx) {
 			c.Distinct(src, path, fmt.Sprint(start, entry))
 		}
 		wit := func(problem string) map[string]any {
-			return map[string]any{"kind": k.name, "source": src, "path": path, "start_line": start, "entry": []string{"ParseTemplateLocation+Render", "ParseTemplate+Render", "ParseAndRender", "ParseAndRenderString"}[entry],
+			return map[string]any{"kind": k.name, "source": src, "path": path, "start_line": start, "entry": []string{"ParseTemplateLocation+Render", "ParseTemplate+Render", "ParseAndRender", "ParseAndRenderString", "ParseTemplateAndCache+Render"}[entry],
 				"failing_construct": fail, "expected_line": wantLine, "problem": problem, "observed": res.Brief(), "nesting_depth": depth}
 		}
 		if i%20011 == 3 {
